@@ -1878,6 +1878,84 @@ func c19Callables(c *Ctx) {
 	}
 }
 
+// ---- every SYNTACTIC form that could write through a constant, including forms the interpreter rejects today (nested
+// index / dot assignment, ++ on an element, assignment through a slice or a call result, compound forms): whatever the
+// statement returns - a value, an error, a parse error - the constant, and an alias of it made before, must evaluate to
+// exactly the same value afterwards. K stands for the constant, B for a non-constant alias (b=K) in the alias variant.
+var mutationForms = []string{
+	"K[0][1]=99", "K[1][0]=99", "K[2][3]=99", "K[3][1]=99", "K[0][1]=K[0][1]", "K[2][7]=7", "K[0][0][0]=99", "K[4][0][1]=99",
+	"K.cfg[3]=99", "K.cfg[7]=7", "K[\"cfg\"][3]=99", "K[\"cfg\"][7]=7", "K.cfg.x=1", "K.s.y=2", "K.a[1]=99", "K.t[0]=99", "K.deep.m[2]=99", "K.deep.a[9]=99",
+	"K.cfg[3]=K.cfg[3]", "K.cfg[3]:=99", "K[0][1]:=99", "K.x=1", "K.cfg=1", "K[0]=[1]",
+	"K[0][1]++", "K[0][1]--", "++K[0][1]", "--K.cfg[3]", "K.cfg[3]++", "K.a[1]++", "K[0]++", "K.cfg++",
+	"K[0][1]+=1", "K.cfg[3]+=1", "K[0]+=[1]", "K+=[1]", "K[0][1]*=2",
+	"K[1:][0]=99", "K[0:2][1]=99", "K[0][1:][0]=99", "K.a[2:][0]=99", "(K)[0]=99", "(K[0])[1]=99", "(K.cfg)[3]=99",
+	"first(K)[1]=99", "rest(K)[0]=99", "first(K).x=1", "idc(K)[0]=99", "idc(K).cfg=1", "idc(K[0])[1]=99",
+	"K[0],K[1]=K[1],K[0]", "K[0][0],K[0][1]=K[0][1],K[0][0]", "t=K[0][0];K[0][0]=K[0][1];K[0][1]=t",
+	"del(K[0][1])", "del(K.cfg[3])", "del(K[\"cfg\"][3])", "del(K.cfg.x)", "del(K.deep.m[2])", "del(K[2][3])", "del(K.cfg)",
+	"for K[0]=0:3{}", "for K[0][1]=0:3{}", "for K.cfg=[1]{}", "for K.cfg[3]=[1,2]{}",
+	"K[0][1]=99;K[0][1]=98", "K.cfg[3]=3;K.cfg[3]=99", "K[0][0]=K[0][0];K[0][1]=99", "x=K[0];x[1]=99", "x=K.cfg;x[3]=99;del(x[4])", "x=K.a;x=x+[1];x[0]=99",
+}
+
+func c19Forms(c *Ctx) {
+	big := "[1,2,3,4,5,6,7,8,9,10]"
+	bigm := "{1:1,2:2,3:3,4:4,5:5}"
+	shapes := []struct{ name, src string }{
+		// arrays of arrays / maps, inner ones below and above the thresholds
+		{"array-of-big", "[" + big + ",[1,2]," + bigm + ",{1:1},[[1,2]," + big + "]]"},
+		{"array-of-small", "[[1,2],[3],{1:1,3:3},{2:2},[[1,2],[3,4]]]"},
+		{"bigarray-of-big", "[" + big + "," + big + "," + bigm + "," + bigm + ",[" + big + "," + big + "],6,7,8,9,10]"},
+		// maps with string keys (dot forms), inner ones below and above the thresholds
+		{"map-of-big", "{\"cfg\":" + bigm + ",\"s\":{1:1},\"a\":" + big + ",\"t\":[1,2],\"deep\":{\"m\":" + bigm + ",\"a\":" + big + "}}"},
+		{"map-of-small", "{\"cfg\":{3:3,4:4},\"s\":{1:1},\"a\":[1,2,3],\"t\":[1,2]}"},
+	}
+	wraps := []struct{ name, pre, post string }{{"top", "", ""}, {"infunc", "func(){", "}()"}, {"infunc2", "func(){func(){", "}()}()"}, {"inloop", "for 2{", "}"}}
+	for _, sh := range shapes {
+		for _, noReg := range []bool{false, true} {
+			for _, who := range []string{"K", "B"} {
+				se := newSession(noReg)
+				se.exec("idc=func(x){x}")
+				se.exec("K=" + sh.src)
+				se.exec("b=K")
+				want, _ := se.value("K")
+				for _, form := range mutationForms {
+					stmt := form
+					if who == "B" { // the same forms through a non-constant alias: b may change, K must not
+						stmt = strings.ReplaceAll(form, "K", "b")
+					}
+					for _, w := range wraps {
+						se.uniq++
+						src := w.pre + stmt + w.post
+						if w.pre != "" && w.name != "inloop" {
+							src = strings.Replace(src, "func(){", fmt.Sprintf("func(){%d;", se.uniq), 1)
+						}
+						_, panicked, errs := se.exec(src)
+						c.Eval()
+						line := fmt.Sprintf("FORM noreg=%v K=%s; b=K; %s", noReg, sh.src, src)
+						if panicked {
+							c.Fail("panic-form", line, fmt.Sprintf("%v", errs))
+						}
+						got, _ := se.value("K")
+						inner := se.innerValue("K")
+						if got != want || inner != want {
+							route := "direct"
+							if who == "B" {
+								route = "alias"
+							}
+							c.Fail("const-changed-by-form-"+sh.name+"-"+route+"-"+w.name, line, fmt.Sprintf("K was %s, afterwards it is %s (read inside a function: %s)", want, got, inner))
+							se.exec("del(K)")
+							se.exec("K=" + sh.src)
+						}
+						if who == "B" { // re-arm the alias
+							se.exec("b=K")
+						}
+						c.Count("form-scope=" + w.name)
+					}
+				}
+			}
+		}
+	}
+}
+
 func runC19(c *Ctx) {
 	log.SetLogLevelQuiet(log.Critical)
 	_ = extensions.Init(nil) // defines the identifier nil (and PI, E: not used as names here)
@@ -1902,6 +1980,7 @@ func runC19(c *Ctx) {
 	}
 	c19Raw(c)
 	c19Callables(c)
+	c19Forms(c)
 	ns, seqs := corpus()
 	for i := range seqs {
 		c19Seq(c, ns[i], seqs[i])
